@@ -9,3 +9,13 @@ claim("C06", "model_checking",
       "numpy linear algebra; palettes; multi-node floating islands are in the domain only as far as they hang on open branches",
       "bounded-exhaustive input-space enumeration on the implementation with an exact rational reference model",
       "DESIGN.md section 4 C06")
+claim("C04", "model_checking",
+      "Every well-posed network of the listed levels with at least one source, in every orientation and with every reference node, is solved with every scale factor and with every subset of its sources kept active through the library's own zeroing operations; homogeneity, |a|^2 power scaling, superposition over all subsets and the zero solution of the all-off network are judged on every one.",
+      "numpy linear algebra; palettes; relations between runs of the library (no reference solve except for the domain decision and the natural scale)",
+      "bounded-exhaustive enumeration with two-run (metamorphic) relations on the implementation",
+      "DESIGN.md section 4 C04")
+claim("C16", "model_checking",
+      "Explicit-state search: from every network of the listed levels over {Z,V,I,LV,short,open} (shorts/opens in every position, orientation and reference) every one of the public simplification operations is applied with every admissible parameter and exemption list, results are fed to further operations up to the stated depth; every transition is judged by a netlist-level reference of the operation (survivor identity, renaming only inside contracted classes, exemptions), an input snapshot, and electrical equivalence computed with the reference solver / reference port impedance.",
+      "numpy linear algebra; equivalence judged with the reference solver on the extracted result",
+      "explicit-state BFS/DFS over real transformer calls with a reference model of each transition",
+      "DESIGN.md section 4 C16")
